@@ -97,7 +97,21 @@ func c20Vole(res *Result, tr *ndWriter, calls []voleCall, rng *rand.Rand) {
 		return
 	}
 	mods := c20Moduli()
+	// the shares a call returned are the caller's: they are validated again after the later calls of the session
+	var recheck []func() string
+	defer func() {
+		if len(res.Viol) > 0 {
+			return
+		}
+		for _, f := range recheck {
+			if msg := f(); msg != "" {
+				res.viol("vole-relation:after-later-call", "%s", msg)
+				return
+			}
+		}
+	}()
 	for ci, c := range calls {
+		ci, c := ci, c
 		p := mods[c.mod]
 		xs := make([]*big.Int, c.m)
 		ys := make([]*big.Int, c.m)
@@ -170,6 +184,19 @@ func c20Vole(res *Result, tr *ndWriter, calls []voleCall, rng *rand.Rand) {
 			res.viol("vole-relation", "Mul call %d of the session (m=%d, modulus %s): %d elements violate u - r = x*y mod p (first %d)", ci, c.m, c.mod, bad, first)
 			return
 		}
+		usK, rsK, xsK, ysK := us, rs, xs, ys
+		recheck = append(recheck, func() string {
+			for i := 0; i < c.m; i++ {
+				d := new(big.Int).Sub(usK[i], rsK[i])
+				d.Mod(d, p)
+				w := new(big.Int).Mul(xsK[i], ysK[i])
+				w.Mod(w, p)
+				if d.Cmp(w) != 0 {
+					return fmt.Sprintf("the shares Mul call %d returned (m=%d, modulus %s) no longer satisfy u - r = x*y mod p at element %d after the later calls of the session", ci, c.m, c.mod, i)
+				}
+			}
+			return ""
+		})
 	}
 }
 
